@@ -4,7 +4,7 @@
 # exit 0 held / 1 VIOLATION / 2 harness or build trouble
 cd /verif || exit 2
 P=${1:?property}; T=${2:-quick}
-B=/verif/.build/$P
+B=/verif/.build/$P; mkdir -p /verif/.build
 if ! scripts/build.sh "$B" > "$B.buildlog" 2>&1; then
   mkdir -p "$B"; cat "$B.buildlog" >&2
   echo "HARNESS-TROUBLE property=$P: build failed" >&2
